@@ -304,6 +304,11 @@ func (s *Server) DefaultNetwork() uuid.UUID {
 // quiescent level Quiesce waits for.
 func (s *Server) MarkBaseline() { s.baseline = runtime.NumGoroutine() }
 
+// QuiesceToBaseline is Quiesce(baseline recorded by MarkBaseline, cap). Only
+// meaningful while a single goroutine of the process issues requests; with
+// several worker goroutines (one server each) use Settle, which is per server.
+func (s *Server) QuiesceToBaseline(cap time.Duration) bool { return Quiesce(s.baseline, cap) }
+
 // Quiesce waits (bounded) until the process' goroutine count is back at or
 // below base — engine goroutines started by a check/expand may still issue
 // reads for a moment after the response was sent. It is a harness courtesy,
